@@ -636,11 +636,14 @@ inline void url_search_params::set(TN&& name, TV&& value) {
     auto str_name = make_string(std::forward<TN>(name));
     auto str_value = make_string(std::forward<TV>(value));
 
+    // name can be a view of a name in the list (params.set(it->first, v)), so the
+    // removed pairs must stay alive while the names are compared
+    name_value_list removed;
     bool is_match = false;
     for (auto it = params_.begin(); it != params_.end(); ) {
         if (it->first == str_name) {
             if (is_match) {
-                it = params_.erase(it);
+                removed.splice(removed.end(), params_, it++);
                 continue;
             }
             it->second = std::move(str_value);
